@@ -744,8 +744,46 @@ func runC04(ctx *Ctx) *Result {
 	if ctx.Tier == "thorough" {
 		ntrees = 3000
 	}
+	nscripts := 3000
+	if ctx.Tier == "thorough" {
+		nscripts = 100000
+	}
+	c04Unit(ctx, res, rng.Fork(), nscripts)
 	c04WholeRun(ctx, res, rng.Fork(), ntrees)
+	c04Floors(res)
 	return res
+}
+
+// coverage floors: what the property names must really have been reached
+func c04Floors(res *Result) {
+	if res.Broken != "" {
+		return
+	}
+	floor := func(key string, min int) {
+		n, _ := res.Distribution[key].(int)
+		if n < min && res.Broken == "" {
+			res.Broken = fmt.Sprintf("coverage floor missed: %s = %d < %d", key, n, min)
+		}
+	}
+	floor("unit.item AUTOFIX Replacing _ with _.", 200)
+	floor("unit.item AUTOFIX Inserting a line _ above this line.", 50)
+	floor("unit.item AUTOFIX Inserting a line _ below this line.", 20)
+	floor("unit.item AUTOFIX Deleting this line.", 20)
+	floor("unit.item AUTOFIX Sorting the whole file.", 10)
+	floor("unit.item diagnostic", 500)
+	floor("unit.item HF", 50)
+	floor("unit.item HS", 20)
+	floor("unit.panics (assertions of Autofix reached)", 20)
+	floor("whole.evaluations-with-AUTOFIX", 100)
+	floor("whole.only-runs-with-AUTOFIX", 20)
+	floor("whole.source-runs", 50)
+	floor("whole.F-rewrote-1-file", 10)
+	floor("whole.F-rewrote-2+-files", 50)
+	floor("whole.default-runs-with-hint", 100)
+	floor("whole.f-vs-F-diverging-lines-exempt(stale read traced)", 5)
+	for _, a := range []string{"Replacing _ with _.", "Inserting a line _ above this line.", "Deleting this line.", "Sorting the whole file."} {
+		floor("whole.action "+a, 10)
+	}
 }
 
 func replayC04(ctx *Ctx, rep map[string]any) *Result {
@@ -753,6 +791,10 @@ func replayC04(ctx *Ctx, rep map[string]any) *Result {
 	switch rep["kind"] {
 	case "whole":
 		c04ReplayWhole(ctx, res, rep)
+	case "script":
+		dir := filepath.Join(ctx.Work, "c04unit")
+		src, _ := rep["source"].(bool)
+		c04CheckScripts(ctx, res, []c04Script{c04ScriptFromReplay(rep, dir)}, []bool{src})
 	}
 	return res
 }
